@@ -49,6 +49,184 @@ def distance_param_roles(prog, dist):
     return None
 
 
+def check_depth_terms(prog, rep, impl, dfun, site, wt, rec, np_terms, entry):
+    """P7a / P7b on the terms of the map_overlap call: depth = (rows, columns), each `0 if C else pad`; C compares
+    max_distance with the corner-to-corner distance; under C the arrays are rechunked to one block"""
+    from ..wterm import key as tkey, show as tshow, resolve, to_rat, atom_term, mentions, walk as twalk
+    line = site.call.lineno
+    d = rec.kwargs.get('depth')
+    if d is None:
+        rep.add('P7a', dfun, entry, 'depth', line, False, 'map_overlap without a depth has no halo')
+        return
+
+    def none_false(c):
+        if c[0] == 'cmp' and c[1] in ('Is', 'IsNot') and ('const', None) in (c[2], c[3]):
+            other = c[3] if c[2] == ('const', None) else c[2]
+            if other[0] == 'param':
+                return c[1] == 'IsNot'
+        return None
+    d = resolve(d, none_false)
+
+    def push(t):
+        # `halo = (0, 0) if C else (py, px)`: a choice between pairs is a pair of choices
+        if t[0] == 'phi':
+            a, b = push(t[2]), push(t[3])
+            if a[0] == 'tuple' and b[0] == 'tuple' and len(a[1]) == len(b[1]):
+                return ('tuple', tuple(('phi', t[1], x, y) for x, y in zip(a[1], b[1])))
+        return t
+    d = push(d)
+    if d[0] == 'tuple' and len(d[1]) == 2:
+        comps = list(d[1])
+    elif d[0] == 'dict' and sorted(k_[1] for k_, v_ in d[1] if k_[0] == 'const') == [0, 1]:
+        byk = {k_[1]: v_ for k_, v_ in d[1]}
+        comps = [byk[0], byk[1]]
+    else:
+        rep.add('P7a', dfun, entry, 'depth = %s' % tshow(d, 100), line, None, 'depth is not a (rows, columns) pair')
+        return
+    # the fallback condition: the phi condition shared by the depth components
+    conds = [c_[1] for c_ in comps if c_[0] == 'phi']
+    if len(conds) != 2 or tkey(conds[0]) != tkey(conds[1]):
+        rep.add('P7b', dfun, entry, 'single-block fallback', line, False if not conds else None,
+                'the documented fallback `if max_distance >= <raster extent>` is missing' if not conds else 'the two depths are chosen under different conditions')
+        return
+    C = conds[0]
+    neg = False
+    while C[0] == 'not':
+        C, neg = C[1], not neg
+    md = ('param', 'max_distance')
+    okc, whole_when, other = False, None, None
+    if C[0] == 'cmp' and C[1] in ('Lt', 'LtE') and (tkey(C[2]) == tkey(md) or tkey(C[3]) == tkey(md)):
+        # a <= b: the whole raster when max_distance is the larger side
+        whole_when = (tkey(C[3]) == tkey(md)) != neg
+        other = C[2] if tkey(C[3]) == tkey(md) else C[3]
+        okc = True
+    rep.add('P7b', dfun, entry, 'if %s' % tshow(conds[0], 100), line, okc or None, 'fallback comparison must relate max_distance to the raster extent')
+    if not okc:
+        return
+    # threshold: the dispatcher on the opposite corners of the grids, under the chosen metric
+    okmp, whymp = None, ''
+    crec = [x for x in wt.calls if isinstance(x.result, tuple) and len(x.result) == 5 and len(other) == 5 and x.result[4] == other[4]] \
+        if other[0] == 'call' else []
+    if crec and isinstance(crec[0].callee, Func) and np_terms is not None and len(np_terms) >= 3:
+        dr = distance_param_roles(prog, crec[0].callee)
+        b_ = {k_: resolve(v_, none_false) for k_, v_ in crec[0].bound.items()}
+        if dr is not None and all(dr[r_] in b_ for r_ in dr):
+            XS, YS = np_terms[1], np_terms[2]
+
+            def corner(t):
+                for g_, G in (('x', XS), ('y', YS)):
+                    for n_, k_ in ((0, 0), (1, -1)):
+                        forms = (('index', ('index', G, ('const', k_)), ('const', k_)), ('index', G, ('tuple', (('const', k_), ('const', k_)))))
+                        if any(tkey(t) == tkey(f_) for f_ in forms):
+                            return g_, n_
+                return None
+            c_ = {r_: corner(b_[dr[r_]]) for r_ in ('x1', 'x2', 'y1', 'y2')}
+            okmp = all(v_ is not None for v_ in c_.values()) and c_['x1'][0] == c_['x2'][0] == 'x' and c_['y1'][0] == c_['y2'][0] == 'y' and \
+                c_['x1'][1] == c_['y1'][1] and c_['x2'][1] == c_['y2'][1] and c_['x1'][1] != c_['x2'][1]
+            mt = b_[dr['metric']]
+            kmt = wt.env.get('distance_metric')
+            kmt = resolve(kmt, none_false) if kmt is not None else None
+            okmp = okmp and (mentions(mt, ('param', 'distance_metric')) and (kmt is None or tkey(kmt) == tkey(mt)))
+            whymp = 'corners %s, metric %s' % (c_, tshow(mt, 60))
+    rep.add('P7b', impl, entry, 'threshold = %s' % tshow(other, 120), impl.node.lineno, okmp,
+            'the fallback threshold must be the corner-to-corner distance of the raster under the chosen metric; ' + whymp)
+    # the two branches
+    def branch(t, whole):
+        def decide(c):
+            if tkey(c) == tkey(conds[0]):
+                return whole == whole_when if not neg else whole == whole_when
+            return none_false(c)
+        return resolve(t, decide)
+    # (conds[0] true <=> whole raster) iff whole_when, with the `not` wrappers folded into whole_when
+    def pick(t, whole):
+        truth = whole if whole_when else not whole
+        if neg:
+            truth = not truth
+        return resolve(t, lambda c: truth if tkey(c) == tkey(conds[0]) else none_false(c))
+    wd = [pick(c_, True) for c_ in comps]
+    ok0 = all(x[0] == 'const' and isinstance(x[1], int) and not isinstance(x[1], bool) and x[1] >= 0 for x in wd)
+    rep.add('P7b', dfun, entry, 'fallback depth %s' % [tshow(x, 30) for x in wd], line, ok0,
+            'with a single block no halo is needed: both depths must be non-negative constants in the fallback branch')
+    raster = ('param', impl.params[0])
+    full = [('index', ('attr', raster, 'shape'), ('const', 0)), ('index', ('attr', raster, 'shape'), ('const', 1))]
+
+    def one_block(t):
+        # X.rechunk({0: rows, 1: cols}) / X.rechunk((rows, cols)) / X.rechunk(-1) ...
+        if t[0] == 'call' and isinstance(t[1], tuple) and t[1][0] == 'method' and t[1][2] == 'rechunk' and t[2]:
+            a = t[2][0]
+            if a[0] == 'dict':
+                byk = {k_[1]: v_ for k_, v_ in a[1] if k_[0] == 'const'}
+                return all(k_ in byk and (tkey(byk[k_]) == tkey(full[k_]) or byk[k_] == ('const', -1)) for k_ in (0, 1))
+            if a[0] == 'tuple' and len(a[1]) == 2:
+                return all(tkey(a[1][k_]) == tkey(full[k_]) or a[1][k_] == ('const', -1) for k_ in (0, 1))
+            if a == ('const', -1):
+                return True
+        return False
+    arrs = [pick(a, True) for a in rec.args[1:]]
+    blocks = []
+    for n_, a in enumerate(arrs):
+        ob = one_block(a)
+        if not ob:
+            # re-assigned in place (raster.data = raster.data.rechunk(..)) under the fallback condition
+            for tgt, val, guards, node in wt.stores:
+                if tkey(tgt) == tkey(a) and any(tkey(resolve(g_, none_false)) == tkey(conds[0]) for g_ in guards) and one_block(val):
+                    ob = True
+        blocks.append(ob)
+    rep.add('P7b', dfun, entry, 'fallback rechunks %d of %d arrays to one block' % (sum(1 for x in blocks if x), len(blocks)), line,
+            bool(blocks) and all(blocks), 'when every target may matter the data and BOTH coordinate grids must become one block of the full '
+            'shape (rows from shape[0], columns from shape[1])')
+    # halo branch: pads
+    hd = [pick(c_, False) for c_ in comps]
+    for slot, ax in enumerate(('y', 'x')):
+        try:
+            v = _pad_rat(hd[slot], raster)
+        except ValueError as e:
+            rep.add('P7a', dfun, entry, 'depth[%d] = %s' % (slot, tshow(hd[slot], 80)), line, None, str(e))
+            continue
+        ok, why = pad_form(v, ax)
+        rep.add('P7a', dfun, entry, 'depth[%d] = %s' % (slot, tshow(hd[slot], 80)), line, ok,
+                'the halo on the %s axis (depth slot %d) must be int(max_distance / cellsize_%s + c) with c >= 0 or a '
+                'ceil of that quotient: %s' % ('row' if ax == 'y' else 'column', slot, ax, why))
+
+
+def _pad_rat(t, raster):
+    """the pad term as an expression over max_distance / cellsize_x / cellsize_y (int / ceil / round applications kept)"""
+    from ..wterm import to_rat, atom_term, key as tkey
+    from ..sym import subst
+    names = {'int': 'int', 'builtins.int': 'int', 'round': 'round', 'builtins.round': 'round', 'numpy.ceil': 'ceil', 'math.ceil': 'ceil',
+             'ceil': 'ceil', 'np.ceil': 'ceil'}
+
+    def conv(x):
+        if x == ('param', 'max_distance'):
+            return Rat.sym('max_distance')
+        if x[0] == 'index' and x[1][0] == 'call' and str(x[1][1]).endswith('get_dataarray_resolution') and x[2][0] == 'const' and x[2][1] in (0, 1):
+            if not x[1][2] or x[1][2][0] != raster:
+                raise ValueError('cell sizes of something else than the raster: %s' % (x[1][2],))
+            return Rat.sym('cellsize_x' if x[2][1] == 0 else 'cellsize_y')
+        if x[0] == 'const' and isinstance(x[1], (int, float)) and not isinstance(x[1], bool):
+            return to_rat(x)
+        if x[0] == 'call' and len(x[2]) == 1:
+            nm = x[1][1] if isinstance(x[1], tuple) and x[1][0] == 'global' else x[1]
+            if nm in names:
+                return Rat.atom(App(names[nm], [conv(x[2][0])]))
+        if x[0] == 'call' and len(x[2]) == 2:
+            nm = x[1][1] if isinstance(x[1], tuple) and x[1][0] == 'global' else x[1]
+            if nm in ('min', 'builtins.min', 'numpy.minimum'):
+                # a capped pad: whatever the cap is, the halo can end up smaller than the distance needs
+                for a_ in x[2]:
+                    try:
+                        return Rat.atom(App('min', [conv(a_), Rat.sym('cap')]))
+                    except ValueError:
+                        continue
+        if x[0] == 'arith':
+            def f(a):
+                at = atom_term(a)
+                return conv(at) if at is not None else None
+            return subst(x[1], f)
+        raise ValueError('pad term %s' % tkey(x)[:120])
+    return conv(t)
+
+
 def find_impl(prog):
     m = prog.module('proximity')
     impls = set()
@@ -99,7 +277,8 @@ def check(prog, rep):
     # ---- arrays in kernel parameter order, as wrapper terms (wterm.py): local names, helpers and where the grids are
     # wrapped into dask arrays do not matter
     from ..wterm import WT, key as tkey, show as tshow, unwrap_dask
-    wt = WT(prog, keep=[kern] if kern is not None else [])
+    resf = prog.module('utils').funcs.get('get_dataarray_resolution')
+    wt = WT(prog, keep=([kern] if kern is not None else []) + ([resf] if resf is not None else []))
     wt.run(impl)
     npc = [x for x in wt.calls if x.callee is kern]
     dac = [x for x in wt.calls if x.name.endswith('map_overlap') and x.args and x.args[0][0] == 'localfunc' and x.args[0][2] is kern]
@@ -121,124 +300,12 @@ def check(prog, rep):
     bt = norm(b) if b is not None else None
     rep.add('H2', dfun, entry, 'boundary=%s' % bt, site.call.lineno, bt in NAN_TEXTS,
             'halo cells outside the raster must be NaN (NaN is never a target); reflect/periodic/nearest would invent targets')
-    # ---- depth and fallback: read on the function with its small helpers inlined, one environment per branch
-    from ..astutil import inline, straightline_env
-    from ..inline import inline_view
-    dv = inline_view(prog, dfun)
-    d = site.kwargs.get('depth')
-    if d is None:
-        rep.add('P7a', dfun, entry, 'depth', site.call.lineno, False, 'map_overlap without a depth has no halo')
-        return
-    # resolution unpacking (anywhere in the function, helpers included)
-    res = {}
-    for n in dv.own_nodes():
-        if isinstance(n, ast.Assign) and isinstance(n.value, ast.Call):
-            t = prog.resolve_callable(dfun, dfun.module, n.value.func)
-            if isinstance(t, Func) and t.name == 'get_dataarray_resolution' and isinstance(n.targets[0], ast.Tuple) \
-                    and len(n.targets[0].elts) == 2:
-                res[n.targets[0].elts[0].id] = 'x'
-                res[n.targets[0].elts[1].id] = 'y'
-    if len(res) != 2:
-        rep.add('P7a', dfun, entry, 'cell size unpacking', dfun.node.lineno, None,
-                '`cx, cy = get_dataarray_resolution(raster)` not found')
-        return
-    # the fallback `if`
-    fb = None
-    for n in dv.node.body:
-        if isinstance(n, ast.If) and isinstance(n.test, ast.Compare) and len(n.test.ops) == 1 and 'max_distance' in norm(n.test):
-            fb = n
-    if fb is None:
-        rep.add('P7b', dfun, entry, 'single-block fallback', dfun.node.lineno, False,
-                'the documented fallback `if max_distance >= <raster extent>` is missing')
-        return
-    t = fb.test
-    l, r = norm(t.left), norm(t.comparators[0])
-    opn = type(t.ops[0]).__name__
-    whole_when_true = (l == 'max_distance' and opn in ('GtE', 'Gt')) or (r == 'max_distance' and opn in ('LtE', 'Lt'))
-    whole_branch, halo_branch = (fb.body, fb.orelse) if whole_when_true else (fb.orelse, fb.body)
-    other = r if l == 'max_distance' else l
-    # max possible distance = _distance(corner, opposite corner, metric)
-    mp = [v for v in impl.local_assigns().get(other, []) if isinstance(v, ast.AST)]
-    okmp = False
-    mptxt = None
-    if len(mp) == 1 and isinstance(mp[0], ast.Call):
-        mptxt = norm(mp[0])
-        tt = prog.resolve_callable(impl, impl.module, mp[0].func)
-        if isinstance(tt, Func):
-            # the dispatcher's parameters by what they reach (great_circle_distance(x1, x2, y1, y2): public names), not by position
-            dr = distance_param_roles(prog, tt)
-            b_ = dict(zip(tt.params, [norm(a).replace(' ', '') for a in mp[0].args]))
-            b_.update({k_.arg: norm(k_.value).replace(' ', '') for k_ in mp[0].keywords if k_.arg})
-            if dr is not None and set(b_) == set(tt.params):
-                corner = {'xs[0][0]': ('x', 0), 'xs[0,0]': ('x', 0), 'xs[-1][-1]': ('x', 1), 'xs[-1,-1]': ('x', 1),
-                          'ys[0][0]': ('y', 0), 'ys[0,0]': ('y', 0), 'ys[-1][-1]': ('y', 1), 'ys[-1,-1]': ('y', 1)}
-                c_ = {r_: corner.get(b_[dr[r_]]) for r_ in ('x1', 'x2', 'y1', 'y2')}
-                okmp = all(v_ is not None for v_ in c_.values()) and c_['x1'][0] == c_['x2'][0] == 'x' and c_['y1'][0] == c_['y2'][0] == 'y' and \
-                    c_['x1'][1] == c_['y1'][1] and c_['x2'][1] == c_['y2'][1] and c_['x1'][1] != c_['x2'][1] and b_[dr['metric']] == 'distance_metric'
-    rep.add('P7b', impl, entry, '%s = %s' % (other, mptxt), impl.node.lineno, okmp,
-            'the fallback threshold must be the corner-to-corner distance of the raster under the chosen metric')
-    rep.add('P7b', dfun, entry, 'if %s' % norm(t), fb.lineno,
-            (l == 'max_distance' and opn in ('GtE', 'Gt', 'Lt', 'LtE')) or (r == 'max_distance' and opn in ('GtE', 'Gt', 'Lt', 'LtE')),
-            'fallback comparison must relate max_distance to the raster extent')
-    body = dv.node.body
-    before, after = body[:body.index(fb)], body[body.index(fb) + 1:]
-
-    def depth_in(branch):
-        """the two depth expressions (rows, columns) as seen after this branch, locals inlined"""
-        env = straightline_env(before + list(branch) + after)
-        e = inline(d, env)
-        if isinstance(e, ast.Tuple) and len(e.elts) == 2:
-            return list(e.elts), env
-        if isinstance(e, ast.Dict) and len(e.keys) == 2 and sorted(const(k) for k in e.keys) == [0, 1]:
-            byk = {const(k): v for k, v in zip(e.keys, e.values)}
-            return [byk[0], byk[1]], env
-        return None, env
-    # whole branch: rechunk data, xs, ys to full shape; depth 0
-    wd, wenv = depth_in(whole_branch)
-    rech = {}
-    for s_ in whole_branch:
-        for n in ast.walk(s_):
-            if isinstance(n, ast.Assign) and isinstance(n.value, ast.Call) and short(n.value) == 'rechunk':
-                tgt = norm(n.targets[0])
-                src = norm(n.value.func.value)
-                a0 = n.value.args[0] if n.value.args else None
-                if isinstance(a0, ast.Name):
-                    loc = [x.value for x in whole_branch if isinstance(x, ast.Assign) and norm(x.targets[0]) == a0.id]
-                    a0 = loc[0] if len(loc) == 1 else a0
-                rech[tgt] = (src, norm(a0).replace(' ', '') if a0 is not None else '')
-    hw = None
-    for s_ in whole_branch:
-        if isinstance(s_, ast.Assign) and isinstance(s_.targets[0], ast.Tuple) and norm(s_.value).endswith('.shape'):
-            hw = [e.id for e in s_.targets[0].elts]
-    want_arg = ('{0:%s,1:%s}' % (hw[0], hw[1])) if hw else None
-    alt_arg = ('(%s,%s)' % (hw[0], hw[1])) if hw else None
-    need = {site_root(a) for a in site.arrays}
-    okr = hw is not None and all(k in rech and rech[k][0] == k and rech[k][1] in (want_arg, alt_arg) for k in need)
-    rep.add('P7b', dfun, entry, 'fallback rechunks %s' % sorted(rech.items()), fb.lineno, okr,
-            'when every target may matter the data and BOTH coordinate grids must become one block of the full shape '
-            '(rows from shape[0], columns from shape[1]); needs %s' % sorted(need))
-    ok0 = wd is not None and all(isinstance(const(e), int) and not isinstance(const(e), bool) and const(e) >= 0 for e in wd)
-    rep.add('P7b', dfun, entry, 'fallback depth %s' % ([norm(e) for e in wd] if wd else None), fb.lineno, ok0,
-            'with a single block no halo is needed: both depths must be non-negative constants in the fallback branch')
-    # halo branch: pads
-    hd, henv = depth_in(halo_branch)
-    env = {'max_distance': Rat.sym('max_distance')}
-    for k, ax in res.items():
-        env[k] = Rat.sym('cellsize_' + ax)
-    sp = Spec(prog, env, dfun.module)
-    for slot, ax in enumerate(('y', 'x')):
-        if hd is None:
-            rep.add('P7a', dfun, entry, 'depth[%d]' % slot, fb.lineno, None, 'depth expression not found / not understood')
-            continue
-        try:
-            v = sp.it.as_scalar(sp.it.ev(hd[slot]))
-        except AnalysisIncomplete as e:
-            rep.add('P7a', dfun, entry, 'depth[%d] = %s' % (slot, norm(hd[slot])), fb.lineno, None, str(e))
-            continue
-        ok, why = pad_form(v, ax)
-        rep.add('P7a', dfun, entry, 'depth[%d] = %s' % (slot, norm(hd[slot])), fb.lineno, ok,
-                'the halo on the %s axis (depth slot %d) must be int(max_distance / cellsize_%s + c) with c >= 0 or a '
-                'ceil of that quotient: %s' % ('row' if ax == 'y' else 'column', slot, ax, why))
+    # ---- depth and fallback, on the wrapper terms: helpers (module-level or nested), local names and tuple assignments do
+    # not matter
+    if len(dac) == 1:
+        check_depth_terms(prog, rep, impl, dfun, site, wt, dac[0], np_terms, entry)
+    else:
+        rep.add('P7a', dfun, entry, 'depth', site.call.lineno, None, 'map_overlap call not found in the wrapper terms')
     # coordinate grids wrapped into dask arrays: chunked, and keyed by their content
     fa = [x for x in wt.calls if x.name in ('dask.array.from_array',)]
     grids = [tkey(t) for t in (np_terms or [])[1:3]]
